@@ -184,19 +184,25 @@ func init() {
 		}
 		return n
 	}
+	apiCases := map[string]int{"quick": 3, "thorough": 40}
 	core.Register(&core.Property{
 		ID:    "C15",
 		Level: "exploration",
 		Rule: "cases = exhaustive integer ranges [0,2e6] ∪ [max-1e6,max+1e3] ∪ 10^k±1, seeded random integers, ALL strings up to the tier's length over {0,1,9,.,+,-,e,_,space}, " +
-			"seeded random strings and mutated numerals; oracle = integer reference formatter + three-way grammar (must-accept/must-reject/unspecified). " +
+			"seeded random strings and mutated numerals; plus wallets holding coins of 2^26 MASS and more with non-round low digits whose amounts are read back through the API (GetUtxo, GetWalletBalance, GetAddressBalance: the API layer's own formatting helper); oracle = integer reference formatter + three-way grammar (must-accept/must-reject/unspecified). " +
 			"distinct_nontrivial counts distinct input shapes (digit runs collapsed) containing a fraction or a non-digit, and distinct (integer digits, fraction digits) pairs",
 		Assumptions: []string{"max supply read from massutil.MaxAmount()", "strings \"\", \".\", \"1.\", \".5\" are unspecified: either outcome accepted, value checked when accepted"},
 		Cases: func(tier string, seed int64) int {
 			p := plans[tier]
-			return p.intChunks + 1 + p.randChunks + strChunks(p) + p.randStrChunks
+			return p.intChunks + 1 + p.randChunks + strChunks(p) + p.randStrChunks + apiCases[tier]
 		},
 		Run: func(t *core.T) {
 			p := plans[t.Tier]
+			if t.Index >= p.intChunks+1+p.randChunks+strChunks(p)+p.randStrChunks {
+				// the strings the API layer hands out for very large coins (its own formatting helper)
+				c15ApiCase(t)
+				return
+			}
 			max := int64(consensus.MaxMass * consensus.MaxwellPerMass)
 			umax := uint64(max)
 			i := t.Index
